@@ -255,3 +255,39 @@ def string_equality(ctx, P, rule="STR-EQUAL", floor=5):
                                    "`%s %s %s` next to a memcmp: a string that merely has the other as prefix compares equal" % (l, b.op, r))
                             k += 1
     ctx.floor(rule, floor)
+
+
+def early_exits(ctx, P, rule="VALIDATOR-EXITS"):
+    ctx.rule(rule, "the list validators check_sites / check_positions return early without looking at the values only for the empty "
+                   "list (`n == 0`); every non-empty list, including a single element, reaches the range check of its last element")
+    tu = P.tus["trees"]
+    for name in ("check_sites", "check_positions"):
+        fn = P.need(name, "trees")
+        npar = fn.params[1].name
+        early = []
+        for x in walk(fn.body):
+            if x.k == "IfStmt":
+                then = x.kids[1]
+                rets = [y for y in walk(then) if y.k in ("ReturnStmt", "GotoStmt")]
+                errs = "tsk_trace_error" in tu.src(then) or "TSK_ERR_" in tu.src(then)
+                if rets and not errs:
+                    early.append(estr(x.kids[0]))
+        ok = early == ["(%s == 0)" % npar]
+        ctx.ob(rule, name, ok, tu.loc(fn.node), "success early-exits: %s" % early)
+        gs = find_guards(P, fn)
+        last = [g for g in gs if not any(i.k == "ForStmt" for i in _ancestors(fn, g.ifn))]
+        ctx.ob(rule, name + "|last-element", len(last) >= 1, tu.loc(fn.node), "a range guard outside the pair loop covers the last element")
+
+
+def _ancestors(fn, node):
+    par = {}
+    for x in walk(fn.body):
+        for c in x.kids:
+            if c is not None:
+                par[id(c)] = x
+    out = []
+    cur = node
+    while id(cur) in par:
+        cur = par[id(cur)]
+        out.append(cur)
+    return out
